@@ -8,6 +8,14 @@ BASE = ("cd /repo && /venv/bin/python -m pytest -ra -q -p no:cacheprovider --tim
         "--continue-on-collection-errors")
 
 CLAIMED = {
+    "C02": ("Lean theorems: non-objects get the format error; everything the generic gate or a command's validator "
+            "refuses is answered with that code with no event at all in every world (rejected_no_contact); "
+            "accepted requests are handed to the operation; udValue/keyId validators agree with the documented "
+            "zones; the counterexample F-02b is proved. Spec/C02.lean formalises docs/protocol*.md as Valid / "
+            "Unspecified / Invalid zones per field; the oracle allowedObs is evaluated on the implementation's "
+            "verdict (code, device contacted) for the full single-field mutation matrix.",
+            "partial: zone agreement for message/auth/brothers is decided by the exhaustive mutation matrix "
+            "(correspondence + oracle), not by a theorem; Spec/C02.lean is a trusted reading of the documents"),
     "C03": ("Lean theorems: handle_request always returns an object with an integer errorcode; every line "
             "(incl. undecodable ones) is answered; histories keep serving while no exception escapes a "
             "handler (…_partial). The remaining half — no exception escapes while the device conforms — is "
